@@ -208,7 +208,9 @@ class Check(object):
                        text=True, timeout=timeout)
     if p.returncode != 0:
       raise Infra("driver exit %s: %s" % (p.returncode, p.stderr[-500:]))
-    outs = p.stdout.splitlines()
+    outs = p.stdout.split("\n")
+    if outs and outs[-1] == "":
+      outs.pop()
     if len(outs) != len(lines):
       raise Infra("driver answered %d lines for %d ops; stderr=%s" % (len(outs), len(lines), p.stderr[-300:]))
     return [json.loads(o) for o in outs]
